@@ -153,10 +153,16 @@ def shrink(check, trace, cls, vbuf=None, max_execs=2000, max_wall=None):
     cur = copy.deepcopy(trace)
     if not bad(cur):
         return cur, state['n'], False
+    if cls and cls[0] == 'memory':
+        # replays measure every call, not the 1-in-8 sample by position
+        c2 = dict(cur, mem_all=True)
+        if bad(c2):
+            cur = c2
 
     # 0. per-call violations: the offending buffer alone, as raw bytes
     if vbuf is not None and len(vbuf) <= 300000:
         cand = {'world': 'A', 'check': check, 'population': 'raw',
+                'mem_all': bool(cur.get('mem_all')),
                 'conns': [{'recv': 'A',
                            'frames': [{'k': 'raw', 'b': bytes(vbuf).hex()}],
                            'cuts': [], 'closes': [], 'stalls': [],
